@@ -238,12 +238,13 @@ def _unambiguous_dual(
     problem = picos.Problem()
 
     gram = vectors_to_gram_matrix(vectors)
-    lagrangian_variable_big_z = picos.SymmetricVariable("Z", (n, n))
+    # The Gram matrix of complex states is complex Hermitian, so the Lagrangian variable has to be Hermitian as well.
+    lagrangian_variable_big_z = picos.HermitianVariable("Z", (n, n))
 
     problem.add_constraint(lagrangian_variable_big_z >> 0)
-    problem.add_list_of_constraints(lagrangian_variable_big_z[i, i] >= probs[i] for i in range(n))
+    problem.add_list_of_constraints(lagrangian_variable_big_z[i, i].real >= probs[i] for i in range(n))
 
-    problem.set_objective("min", picos.trace(gram * lagrangian_variable_big_z))
+    problem.set_objective("min", picos.trace(gram * lagrangian_variable_big_z).real)
 
     problem.solve(solver=solver, **kwargs)
 
